@@ -31,7 +31,10 @@ RULE = ("TLC enumerates the perturbation graph of EqContract!ClassTable: for eac
         "by each public mutator of EqContract (attribute setters / add_* / remove_*, translate_rotate with a lattice "
         "motion, convert_to_2d), once after == and hash() were evaluated on it (warm) and once cold, and compared with "
         "fresh objects built from the raw values of the new and of the old valuation; plus 1000 / 10000 seeded random "
-        "mutations from arbitrary valuations. "
+        "mutations from arbitrary valuations. Dynamic obstacles: history keyword lists (omitted, [], one / two entries, "
+        "None entries, id sets re-inserted) are ordinary groups; the mutators update_initial_state (default arguments / "
+        "everything given, max_history_length left out, 1, 2) and update_prediction advance every node with parallel "
+        "history lists and are compared with a fresh obstacle built from the archived raw values. "
         "distinct_nontrivial = distinct (class, x valuation, y valuation, kind) with x # y.")
 ASSUMPTIONS = ["'constructor-visible attribute' = parameter of the public constructor; parameters that are only valid "
                "together form one group (joint domain); content of LaneletNetwork / Scenario is added through the "
@@ -411,16 +414,20 @@ def _build_table():
                 P("signal_series", d=OMIT, v1=lambda: [sig(1), sig(2)], v2=lambda: [sig(1), sig(2, 1)])]
 
     def idset_list(param):
-        return P(param, d=OMIT, v1=lambda: [ids(), set([3])], v1r=lambda: [ids_r(), set([3])],
-                 v2=lambda: [ids(), set([4])])
+        return P(param, d=OMIT, de=lambda: [], v1=lambda: [ids(), set([3])], v1r=lambda: [ids_r(), set([3])],
+                 v2=lambda: [ids(), set([4])], v3=lambda: [ids()], v4=lambda: [None, set([3])])
     add("StaticObstacle", StaticObstacle, obstacle_common(ObstacleType.PARKED_VEHICLE, ObstacleType.CONSTRUCTION_ZONE))
     add("DynamicObstacle", DynamicObstacle, obstacle_common(ObstacleType.CAR, ObstacleType.TRUCK) + [
         P("prediction", d=OMIT, v1=tpred, v2=lambda: tpred(1), v3=spred),
         P("initial_meta_information_state", d=OMIT, v1=meta, v2=lambda: meta(1)),
         P("meta_information_series", d=OMIT, v1=lambda: [meta(), meta()], v2=lambda: [meta(), meta(1)]),
         P("external_dataset_id", d=OMIT, v1=5, v2=6),
-        P("history", d=OMIT, v1=lambda: [ks(-2), ks(-1)], v2=lambda: [ks(-2), ks(-1, 1)]),
-        P("signal_history", d=OMIT, v1=lambda: [sig(-2), sig(-1)], v2=lambda: [sig(-2), sig(-1, 1)]),
+        # history lists: "de" = explicit [], v3 = one entry, v4 = entries with None (what update_initial_state
+        # archives when the obstacle was built / advanced with default arguments)
+        P("history", d=OMIT, de=lambda: [], v1=lambda: [ks(-2), ks(-1)], v2=lambda: [ks(-2), ks(-1, 1)],
+          v3=lambda: [ks(-1)]),
+        P("signal_history", d=OMIT, de=lambda: [], v1=lambda: [sig(-2), sig(-1)], v2=lambda: [sig(-2), sig(-1, 1)],
+          v3=lambda: [sig(-1)], v4=lambda: [None, sig(-1)]),
         idset_list("center_lanelet_ids_history"), idset_list("shape_lanelet_ids_history")])
     add("PhantomObstacle", PhantomObstacle, [P("obstacle_id", v1=7, v2=8),
                                              P("prediction", d=OMIT, v1=spred, v2=lambda: spred(1))])
@@ -654,7 +661,25 @@ def build(cls, valuation, mot="id", moved=(), reverse=False):
     return c.build(kw)
 
 
-def mutate(cls, x, xv, yv, mk):
+ADV_INITIAL = ("initial_state", "initial_signal_state", "initial_center_lanelet_ids", "initial_shape_lanelet_ids")
+ADV_HISTORY = ("history", "signal_history", "center_lanelet_ids_history", "shape_lanelet_ids_history")
+
+
+def build_advanced(cls, xv, yv, n):
+    """gamma of the descriptor [val = yv, adv = <<n, archived tokens of xv>>] (EqContract!AdvMark): a FRESH obstacle
+    built through the constructor whose history lists are those of yv (= xv's) extended by the raw values of xv's
+    initial groups ("d" = None) and cut to the last n entries (n = 0: not cut)."""
+    c = table()[cls]
+    kw = {}
+    for g, tok in yv.items():
+        kw.update(c.groups[g][tok]())
+    for init, hist in zip(ADV_INITIAL, ADV_HISTORY):
+        lst = list(kw.get(hist) or []) + [c.groups[init][xv[init]]().get(init)]
+        kw[hist] = lst[-n:] if n else lst
+    return c.build(kw)
+
+
+def mutate(cls, x, xv, yv, mk, n=0):
     """apply the public in-place mutator that leads from valuation xv to yv; returns the object to look at
     (translate_rotate of shapes and states returns a new object instead of changing the receiver)"""
     import numpy as np
@@ -665,6 +690,21 @@ def mutate(cls, x, xv, yv, mk):
         x.convert_to_2d()
         return x
     c = table()[cls]
+    if mk == "adv":                        # arguments at "d" are left out, as is max_history_length for n = 0
+        args = [c.groups["initial_state"][yv["initial_state"]]()["initial_state"]]
+        kw = {}
+        for g, name in zip(ADV_INITIAL[1:], ("current_signal_state", "current_center_lanelet_ids",
+                                            "current_shape_lanelet_ids")):
+            if yv[g] != "d":
+                kw[name] = c.groups[g][yv[g]]()[g]
+        if n:
+            kw["max_history_length"] = n
+        x.update_initial_state(*args, **kw)
+        return x
+    if mk == "upd":
+        kw = c.groups["signal_series"][yv["signal_series"]]()
+        x.update_prediction(c.groups["prediction"][yv["prediction"]]()["prediction"], **kw)
+        return x
     (g,) = [h for h in xv if xv[h] != yv[h]]
     if g in c.setters:
         c.setters[g](x, xv[g], yv[g], lambda tok: c.groups[g][tok]())
@@ -778,7 +818,7 @@ def cases(ctx):
     ctx.extra["tokens"] = sum(len(t) for g in spec.values() for t in g.values())
     ctx.extra["distinct_valuations"] = len(seen)
     ctx.extra["mutation_cases"] = {mk: sum(1 for c in cs if c["kind"] == "mutate" and c["mk"] == mk)
-                                   for mk in ("set", "move", "flat")}
+                                   for mk in ("set", "move", "flat", "adv", "upd")}
     ctx.extra["mutators"] = len({(c["cls"], c["grp"]) for c in cs if c["kind"] == "mutate"})
     return cs
 
@@ -786,7 +826,7 @@ def cases(ctx):
 def _canon(tok):
     """Python's reading of EqContract!Canon - only used to PROPOSE random edges; Trace_EqContract!Shape re-checks
     every event with the real Canon and turns a wrong proposal into a machinery failure."""
-    return tok[:-1] if tok.endswith("r") else tok
+    return "d" if tok == "de" else tok[:-1] if tok.endswith("r") else tok
 
 
 def _random_cases(spec, rng, n):
@@ -812,21 +852,39 @@ def _random_mutations(spec, motion, setters, rng, n):
     """history cases from arbitrary valuations (TLC: from the seeds / depth-1 nodes)"""
     out, names = [], sorted(spec)
     while len(out) < n:
-        cls = rng.choice(names)
+        cls = "DynamicObstacle" if rng.random() < 0.15 else rng.choice(names)      # the class with a history
         x = {g: rng.choice(toks) for g, toks in spec[cls].items()}
+        if cls == "DynamicObstacle" and rng.random() < 0.7:
+            # advancing is defined for parallel history lists (EqContract!Parallel): give most obstacles such lists
+            tok = rng.choice(["d", "de", "v1", "v2", "v3"])
+            for h in ADV_HISTORY:
+                x[h] = tok if h == "history" or tok != "v1" else rng.choice(["v1", "v1", "v4"])
         cand = [("set", g, b, name) for g in x for (a, b, name) in setters[cls][g] if a == x[g]]
         for mk, name in (("move", "translate_rotate"), ("flat", "convert_to_2d")):
             blocked = mk == "move" and motion[cls]["blocked"] and all(x[g] != "d" for g in motion[cls]["blocked"])
             if any(x[g] != "d" or g in motion[cls]["always"] for g in motion[cls][mk]) and not blocked:
                 cand += [(mk, None, None, name)] * 3
+        if cls == "DynamicObstacle":
+            cand += [("upd", None, None, "update_prediction")] * 10
+            if len({{"d": 0, "de": 0, "v3": 1}.get(x[h], 2) for h in ADV_HISTORY}) == 1:
+                cand += [("adv", None, None, "update_initial_state")] * 40
         if not cand:
             continue
         mk, g, b, name = rng.choice(cand)
-        y = dict(x)
+        y, hl = dict(x), 0          # hl: max_history_length of update_initial_state (0 = left out)
         if mk == "set":
             y[g] = b
+        elif mk == "adv":
+            y.update(initial_state="v2" if x["initial_state"] == "v1" else "v1", prediction="d", signal_series="d")
+            for h in ADV_INITIAL[1:]:
+                y[h] = rng.choice(["d", "v1", "v2"])
+            hl = rng.choice([0, 1, 2, 2])
+        elif mk == "upd":
+            y.update(prediction=rng.choice(["v1", "v2", "v3"]), signal_series=rng.choice(["d", "v1", "v2"]))
+            if _canon(y["prediction"]) == _canon(x["prediction"]) and _canon(y["signal_series"]) == _canon(x["signal_series"]):
+                continue
         out.append({"cls": cls, "x": x, "y": y, "kind": "mutate", "grp": name, "seed": "random", "depth": 0,
-                    "mk": mk, "warm": rng.randint(0, 1)})
+                    "mk": mk, "warm": rng.randint(0, 1), "n": hl})
     return out
 
 
@@ -870,6 +928,7 @@ def _execute_mutation(case):
     """x built at valuation A -> (warm: compared and hashed once) -> changed in place by the public mutator ->
     compared with FRESH objects built from the raw values of B and of A (the harness moves raw values itself)."""
     cls, xv, yv, mk, moved = case["cls"], case["x"], case["y"], case["mk"], case.get("moved", [])
+    n = case.get("n", 0)
     before, after = ("z3" if mk == "flat" else "id"), ("m1" if mk == "move" else "id")
     x = build(cls, xv, before, moved)
     if case["warm"]:
@@ -878,19 +937,20 @@ def _execute_mutation(case):
         _b(lambda: twin == x)
         _h(x)
     try:
-        x = mutate(cls, x, xv, yv, mk)
+        x = mutate(cls, x, xv, yv, mk, n)
         res = "ok"
     except Exception as ex:
         res = "exc:" + type(ex).__name__
-    y = build(cls, yv, after, moved)
+    y = build_advanced(cls, xv, yv, n) if mk == "adv" else build(cls, yv, after, moved)
     old = build(cls, xv, before, moved)
     hx, vx = _h(x)
     hy, vy = _h(y)
     return {"ev": [{"op": "mut", "cls": cls, "x": xv, "y": yv, "kind": "mutate", "mk": mk, "mut": case["grp"],
-                    "warm": case["warm"], "mut_res": res,
+                    "warm": case["warm"], "mut_res": res, "n": n,
                     "eq_xy": _b(lambda: x == y), "eq_yx": _b(lambda: y == x), "ne_xy": _b(lambda: x != y),
                     "stale_eq": _b(lambda: x == old),
                     "hash_x": hx, "hash_y": hy, "hash_equal": int(hx == "ok" and hy == "ok" and vx == vy),
+                    "hash_old": _h(old)[0],        # a fresh object with the OLD values: could it be hashed?
                     "sig": "%s.%s%s" % (cls, case["grp"], "" if case["warm"] else "@cold")}]}
 
 
